@@ -9,6 +9,7 @@ package memdb
 import (
 	"context"
 	"net"
+	"time"
 )
 
 // c19Pushes decodes everything written to a subscriber connection into push messages
@@ -162,6 +163,31 @@ func c19Conc(which int) {
 		xy := isMessage(msgs[0], ch, bs("x")) && isMessage(msgs[1], ch, bs("y"))
 		yx := isMessage(msgs[0], ch, bs("y")) && isMessage(msgs[1], ch, bs("x"))
 		vfAssert(xy || yx, "concurrent-publishes-not-interleaved")
+	case 4: // the last subscriber leaves || a new SUBSCRIBE: the newcomer is subscribed afterwards
+		ctx, cancel := context.WithCancel(bg)
+		m.ExecCommand(ctx, [][]byte{bs("subscribe"), ch}, net.Conn(c1))
+		if vfIsSymbolic() {
+			vfSpawn(func() { cancel() })
+			vfSpawn(func() { m.ExecCommand(bg, [][]byte{bs("subscribe"), ch}, net.Conn(c2)) })
+			vfSettle()
+		} else {
+			// natively the schedule gosx typically finds is forced with the channel's own lock: the leaver
+			// and then the newcomer queue up behind it
+			t, _ := m.SubChans.item.Get(string(ch))
+			chn := t.(*Chan)
+			chn.rw.Lock()
+			cancel()
+			time.Sleep(100 * time.Millisecond)
+			vfSpawn(func() { m.ExecCommand(bg, [][]byte{bs("subscribe"), ch}, net.Conn(c2)) })
+			time.Sleep(100 * time.Millisecond)
+			chn.rw.Unlock()
+			vfSettle()
+		}
+		vfOpt("racecheck", 0)
+		vfOpt("concurrent", 0)
+		r1 = hExec(m, bs("publish"), ch, bs("x"))
+		vfAssert(rvEq(r1, vInt(1)), "subscriber-that-joined-while-the-last-one-left-is-counted")
+		vfAssert(len(c2.Log) == 1 && len(c1.Log) == 0, "subscriber-that-joined-while-the-last-one-left-receives")
 	}
 	vfAssert(vfLocksHeld() == 0, "pubsub-conc-no-lock-left")
 }
@@ -172,6 +198,7 @@ func VF_C19_conc_sub_sub()   { c19Conc(0) }
 func VF_C19_conc_sub_pub()   { c19Conc(1) }
 func VF_C19_conc_leave_pub() { c19Conc(2) }
 func VF_C19_conc_pub_pub()   { c19Conc(3) }
+func VF_C19_conc_leave_sub() { c19Conc(4) }
 
 // ---------------------------------------------------------------------------
 // VF_C19_history: subscribe / leave / subscribe again on one channel: a publish reaches exactly the
